@@ -1,4 +1,5 @@
 import QuantemModel.Props.C20
+import QuantemModel.Model.NormAlias
 import Mathlib.Data.List.Sort
 /-!
 C20 — growth round 6: theorems for clauses that were only measured so far.
@@ -265,6 +266,59 @@ theorem call_perm (n : Norm.Norm ℝ) {d d' : List (Ext ℝ)} (hp : d.Perm d') (
   · rw [hout]
     exact hp.map _
 
+
+/-! ## masked exactly for NaN -/
+
+/-- "NaNs come back masked" with its converse: a pixel is masked IF AND ONLY IF it is NaN — finite pixels and ±inf pixels
+always come back as numbers, for every stretch and all limits -/
+theorem norm_masked_iff_nan (s : Stretch ℝ) (lo hi : ℝ) (x : Ext ℝ) : normPixel s lo hi x = none ↔ x = .nan := by
+  cases x with
+  | nan => simp [norm_nan_masked]
+  | fin x => simp [normPixel_fin]
+  | posInf => by_cases h : hi < lo <;>
+      simp [normPixel, intervalExt, stretchExt, maskInvalid, isFiniteB_real, h]
+  | negInf => by_cases h : hi < lo <;>
+      simp [normPixel, intervalExt, stretchExt, maskInvalid, isFiniteB_real, h]
+
+/-- whole arrays: the mask of the result is exactly the NaN pattern of the argument -/
+theorem call_mask_iff_nan (n : Norm.Norm ℝ) (data : List (Ext ℝ)) (out : List (Option ℝ)) (h : n.call data = .ok out) :
+    out.length = data.length ∧ ∀ i : Nat, out[i]? = some none ↔ data[i]? = some Ext.nan := by
+  obtain ⟨lo, hi, _, rfl⟩ := norm_call_pointwise n data out h
+  refine ⟨by simp, fun i => ?_⟩
+  rw [List.getElem?_map]
+  cases hd : data[i]? with
+  | none => simp
+  | some x => simp [norm_masked_iff_nan]
+
+/-! ## aliasing: `copy=False` and the discarded return value -/
+
+/-- `S(values, copy=False)`: afterwards the caller's array holds exactly what the call returned, and that is the stretch
+of every element -/
+theorem callBuf_nocopy (s : Stretch ℝ) (v : List ℝ) :
+    (s.callBuf false v).buf = (s.callBuf false v).ret ∧ (s.callBuf false v).ret = v.map s.call := ⟨rfl, rfl⟩
+
+/-- `S(values, copy=True)`: the caller's array is untouched -/
+theorem callBuf_copy (s : Stretch ℝ) (v : List ℝ) :
+    (s.callBuf true v).buf = v ∧ (s.callBuf true v).ret = v.map s.call := ⟨rfl, rfl⟩
+
+/-- discarding the stretch's return value in `CustomNormalization.__call__` is sound: reading the buffer after
+`stretch(values, copy=False)` gives the pixel-wise composition the other theorems are about -/
+theorem callViaBuffer_eq_call (n : Norm.Norm ℝ) (v : List (Ext ℝ)) : n.callViaBuffer false v = n.call v := by
+  unfold Norm.callViaBuffer Norm.call
+  cases n.interval.getLimits v with
+  | error e => rfl
+  | ok p =>
+    obtain ⟨lo, hi⟩ := p
+    simp [stretchBufExt, normPixel, List.map_map, bind, Except.bind, pure, Except.pure, Function.comp_def]
+
+/-- … and only with `copy=False`: with a copying stretch the buffer would hold the interval's output, the stretch lost -/
+theorem callViaBuffer_copy_drops_stretch (n : Norm.Norm ℝ) (v : List (Ext ℝ)) (lo hi : ℝ)
+    (h : n.interval.getLimits v = .ok (lo, hi)) :
+    n.callViaBuffer true v = .ok (v.map (fun x => maskInvalid (intervalExt lo hi x))) := by
+  unfold Norm.callViaBuffer
+  rw [h]
+  simp [stretchBufExt, List.map_map, bind, Except.bind, pure, Except.pure, Function.comp_def]
+
 /-! ## non-vacuity -/
 
 example : ∃ n n' : Norm.Norm ℝ, Admissible n.stretch ∧ IntervalOK n.interval [.fin 1, .fin 2] ∧
@@ -278,5 +332,8 @@ example : ∃ n n' : Norm.Norm ℝ, Admissible n.stretch ∧ n.setLimits true []
 
 /-- a flipped (descending instead of ascending) image is a rearrangement -/
 example (d : List (Ext ℝ)) : d.Perm d.reverse := (List.reverse_perm d).symm
+
+example : ∃ (n : Norm.Norm ℝ) (lo hi : ℝ), n.interval.getLimits [.fin 1, .nan] = .ok (lo, hi) :=
+  ⟨⟨.manual (some 0) (some 4), .power ⟨2⟩, none, none⟩, 0, 4, rfl⟩
 
 end QuantemModel.Props.C20Ext
